@@ -1,6 +1,6 @@
 (* C07 — exported theorems only: each is closed by [exact] and followed by Print Assumptions. *)
 From Coq Require Import List ZArith Bool.
-From Verif Require Import C07.Model C07.Spec C07.Proofs.
+From Verif Require Import C07.Model C07.Spec C07.Proofs_Res.
 Open Scope Z_scope.
 
 Theorem c07_rget_rmap2 : forall f a b k, f None None = None ->
